@@ -318,6 +318,9 @@ def equiv_worker(job, ra, rb, fp_prefix, replay_kind, witnesses_fn=None, cells_f
                 except Exception as _e:
                     va = vb = repr(_e)
                 print("DEBUG", kind, lab, r, how if goal is not None else "-", va, vb, flush=True)
+                if _os.environ.get("SVX_DUMP") and goal is not None and r == 'unknown':
+                    print("DUMP A:", D._short(_t(a), 3000), flush=True)
+                    print("DUMP B:", D._short(_t(b), 3000), flush=True)
             if r == 'sat':
                 viol.append({"fingerprint": fp, "detail": {"job": job["name"], "what": lab, "witness": wi},
                              "replay": dict({"kind": replay_kind, "spec": spec, "specB": rb.spec,
